@@ -457,7 +457,9 @@ func RunParent(o RunOpts) (*Merged, error) {
 		Counters: map[string]int{}, Sets: map[string]map[string]struct{}{}, Extra: map[string]interface{}{}}
 	workDir := filepath.Join(o.VerifDir, "work", fmt.Sprintf("%s-%d", o.ID, os.Getpid()))
 	os.MkdirAll(workDir, 0o755)
-	defer os.RemoveAll(workDir)
+	if os.Getenv("VERIF_KEEP") == "" {
+		defer os.RemoveAll(workDir)
+	}
 
 	if o.OnlyCase >= 0 {
 		res := runOne(p, o.Tier, o.Seed, o.OnlyCase, workDir, true)
